@@ -442,11 +442,18 @@ func CDSRegion2fromGFF(fs []gff.Feature, refSeqDegapped string) (Region, error) 
 	pos := make([]int, 0)
 	switch fs[0].Strand {
 	case "+":
-		for _, f := range fs {
+		for n, f := range fs {
 			if f.Strand != "+" {
 				return r, errors.New("Error parsing gff: mixed strands within a single ID")
 			}
-			for i := f.Start + f.Phase; i <= f.End; i++ {
+			// the phase is the number of bases to skip to reach the start of the next codon. Only the bases at the
+			// 5' end of the first line are not part of the coding sequence: on a continuation line they complete the
+			// codon that the previous line started
+			start := f.Start
+			if n == 0 {
+				start += f.Phase
+			}
+			for i := start; i <= f.End; i++ {
 				pos = append(pos, i)
 			}
 		}
@@ -469,7 +476,12 @@ func CDSRegion2fromGFF(fs []gff.Feature, refSeqDegapped string) (Region, error) 
 			if f.Strand != "-" {
 				return r, errors.New("Error parsing gff: mixed strands within a single ID")
 			}
-			for i := f.End - f.Phase; i >= f.Start; i-- {
+			// as above, on the reverse strand the 5' end of the feature is the end of its last line
+			end := f.End
+			if j == len(fs)-1 {
+				end -= f.Phase
+			}
+			for i := end; i >= f.Start; i-- {
 				pos = append(pos, i)
 			}
 		}
